@@ -1088,7 +1088,10 @@ func (m *membershipAllower) membershipAllowed(event PDU) error { // nolint: gocy
 
 	var sender *spec.UserID
 	var err error
-	if event.Type() == spec.MRoomMember {
+	// The mxid_mapping of a member event only means something in the pseudo-ID room
+	// version, where it is signed and verified; everywhere else it is unverified content
+	// and must not stand in for the sender when the m.federate flag is checked.
+	if event.Type() == spec.MRoomMember && m.roomVersionImpl.Version() == RoomVersionPseudoIDs {
 		mapping := membershipContent{}
 		if err := json.Unmarshal(event.Content(), &mapping); err != nil {
 			return err
